@@ -114,6 +114,7 @@ def run(ctx):
       ctx.ob('ESC/store', fi, n, True, 'store cannot raise, or its ValueError is converted')
   pairing(ctx, fi)
   wrappers(ctx)
+  exc_class(ctx)
 
 
 def ctor(ctx, fi):
@@ -179,6 +180,21 @@ def pairing(ctx, fi):
              '%s is computed as %s instead of being copied from the parsed event%s' % (a, norm_text(v), ' (.%s)' % copies[a] if copies[a] else ''))
 
 
+def exc_class(ctx):
+  """Raising MIDIConversionError(...) is the conversion point of every handler: constructing it must not be able to raise.
+  The class therefore defines no constructor / formatting hooks of its own (it inherits Exception's)."""
+  mi = ctx.P.module('midi_io')
+  ci = mi.classes.get('MIDIConversionError')
+  ctx.require(ci is not None, 'midi_io.MIDIConversionError not found')
+  hooks = sorted(n for n in ci.methods if n in ('__init__', '__new__', '__str__', '__repr__', '__reduce__', '__getattr__', '__setattr__'))
+  bases = [dotted(b) for b in ci.node.bases]
+  ok = not hooks and bases == ['Exception']
+  ctx.ob('ESC/exception-class', ci, ci.methods[hooks[0]].node if hooks else ci.node, ok,
+         'MIDIConversionError is a plain Exception subclass: constructing it cannot raise' if ok else
+         'MIDIConversionError defines %s (bases %s): code that runs while the error is being constructed can raise another exception out of the handler' % (hooks or 'no hooks', bases),
+         construct='MIDIConversionError has no constructor hooks')
+
+
 def wrappers(ctx):
   for name, target in (('midi_file_to_note_sequence', 'midi_to_note_sequence'), ('midi_to_sequence_proto', 'midi_to_note_sequence'),
                        ('midi_file_to_sequence_proto', 'midi_file_to_note_sequence')):
@@ -192,6 +208,9 @@ def wrappers(ctx):
 
 
 MUTANTS = [
+    Mutant('seed C16_e: the error records the cause message in a constructor that can raise IndexError', F, "class MIDIConversionError(Exception):\n  pass\n",
+           "class MIDIConversionError(Exception):\n\n  def __init__(self, *args):\n    super().__init__(*args)\n    cause = sys.exc_info()[1]\n    self.reason = cause.args[0] if cause is not None else None\n", rule='ESC/exception-class'),
+    Mutant('the error class gets a docstring (harmless)', F, "class MIDIConversionError(Exception):\n  pass\n", 'class MIDIConversionError(Exception):\n  \"\"\"Raised when MIDI data cannot be converted.\"\"\"\n', expect='silent'),
     Mutant('seed C16_b: total_time overwritten per instrument by max(..., default=...)', F, "    for midi_note in midi_instrument.notes:\n      if not sequence.total_time or midi_note.end > sequence.total_time:\n        sequence.total_time = midi_note.end\n",
            "    sequence.total_time = max((midi_note.end for midi_note in midi_instrument.notes), default=sequence.total_time)\n    for midi_note in midi_instrument.notes:\n", rule='PAIR/total-time'),
     Mutant('running maximum written with max() (harmless)', F, "      if not sequence.total_time or midi_note.end > sequence.total_time:\n        sequence.total_time = midi_note.end\n",
